@@ -13,7 +13,7 @@ import (
 )
 
 func init() {
-	register("C09", "real connections (flood control off) with 1..32 concurrent senders - user goroutines, a foreground handler and background handlers - each issuing 1..2000 lines that carry (sender, sequence number, pseudo-random payload), the server end reading fast, slowly (gated writes) or in bursts, GOMAXPROCS 1..16; the wire transcript is parsed back, payload bytes are compared exactly, and Spec.Send (per-sender order, once each, complete) is evaluated by the driver on the (sender, seq) sequence; non-trivial = >=2 senders; distinct by (senders, lines, pacing, seed)", c09)
+	register("C09", "real connections (flood control off) with 1..32 concurrent senders - user goroutines, a foreground handler and background handlers - each issuing 1..2000 lines that carry (sender, sequence number, pseudo-random payload), plus the internal PING handler as one more sender (the server pings up to 150 times while the others are busy), the server end reading fast, slowly (gated writes) or in bursts, GOMAXPROCS 1..16; the wire transcript is parsed back, payload bytes are compared exactly, and Spec.Send (per-sender order, once each, complete) is evaluated by the driver on the (sender, seq) sequence; non-trivial = >=2 senders; distinct by (senders, lines, pacing, seed)", c09)
 }
 
 func c09Payload(sender, seq int) string {
@@ -108,13 +108,37 @@ func c09Session(c *Ctx, nSenders, perSender int, pacing string, procs int) {
 			}
 		}(s)
 	}
+	// the internal PING handler is one more sender: the server pings while the others are busy (and, with gated
+	// writes, while the send goroutine sits inside a write), and every PING must produce exactly one PONG line,
+	// in order, written by the same single writer as everything else
+	npings := perSender
+	if npings > 150 {
+		npings = 150
+	}
 	if hcount > 0 {
 		for q := 0; q < perSender; q++ {
 			sess.srv.SendLine(fmt.Sprintf(":n!u@h NOTICE me :%d", q))
+			if q < npings {
+				sess.srv.SendLine(fmt.Sprintf("PING :p%d", q))
+			}
+		}
+	} else {
+		for q := 0; q < npings; q++ {
+			sess.srv.SendLine(fmt.Sprintf("PING :p%d", q))
+			if q%8 == 7 {
+				time.Sleep(200 * time.Microsecond)
+			}
 		}
 	}
-	wg.Wait()
-	total := nSenders * perSender
+	sendersDone := make(chan struct{})
+	go func() { wg.Wait(); close(sendersDone) }()
+	stuck := false
+	select {
+	case <-sendersDone:
+	case <-time.After(45 * time.Second):
+		stuck = true // the queue is not being emptied any more: analyse what did reach the wire, then report
+	}
+	total := nSenders*perSender + npings
 	// wait until everything has been written (connection stays up): a sync marker after the last line
 	ok := sess.srv.WaitLine(0, func(string) bool { return false }, 0) >= 0
 	_ = ok
@@ -122,26 +146,44 @@ func c09Session(c *Ctx, nSenders, perSender int, pacing string, procs int) {
 	count := func() int {
 		n := 0
 		for _, l := range sess.srv.Lines() {
-			if strings.HasPrefix(l, "PRIVMSG #c :s") {
+			if strings.HasPrefix(l, "PRIVMSG #c :s") || strings.HasPrefix(l, "PONG :p") {
 				n++
 			}
 		}
 		return n
 	}
-	for count() < total && time.Now().Before(deadline) {
+	for count() < total && time.Now().Before(deadline) && !stuck {
 		time.Sleep(time.Millisecond)
 	}
 	complete := count() >= total
 	close(stopPace)
 	raw := sess.srv.Raw()
 	lines := sess.srv.Lines()
-	sess.close()
+	if stuck {
+		c.SpecFail("spec", desc, "", fmt.Sprintf("senders are still blocked in Raw() 45s after the server began reading (Connected()=%v, %d of %d lines on the wire, server end never closed or failed): queued lines are not being written", conn.Connected(), count(), total), rp)
+		go sess.close()
+	} else {
+		sess.close()
+	}
 	c.Res.Traces++
 	// parse the transcript back
 	var wire []string
 	for _, l := range lines {
+		if strings.HasPrefix(l, "PONG :p") {
+			q, e := strconv.Atoi(strings.TrimPrefix(l, "PONG :p"))
+			if e != nil {
+				c.SpecFail("spec", desc, "", "garbled PONG on the wire: "+trunc(l, 80), rp)
+				return
+			}
+			wire = append(wire, fmt.Sprintf("%d:%d", nSenders, q))
+			continue
+		}
 		if !strings.HasPrefix(l, "PRIVMSG #c :s") {
-			continue // registration lines, PONGs
+			if l != "" && !strings.HasPrefix(l, "NICK ") && !strings.HasPrefix(l, "USER ") && !strings.HasPrefix(l, "PING :sync") && !strings.HasPrefix(l, "PONG :sync") && !strings.HasPrefix(l, "CAP ") && !strings.HasPrefix(l, "PASS ") {
+				c.SpecFail("spec", desc, "", "a line nobody issued is on the wire: "+trunc(l, 80), rp)
+				return
+			}
+			continue // registration lines, sync markers
 		}
 		rest := strings.TrimPrefix(l, "PRIVMSG #c :s")
 		p := strings.SplitN(rest, "-", 3)
@@ -164,6 +206,7 @@ func c09Session(c *Ctx, nSenders, perSender int, pacing string, procs int) {
 	for s := 0; s < nSenders; s++ {
 		issued = append(issued, fmt.Sprintf("%d:%d", s, perSender))
 	}
+	issued = append(issued, fmt.Sprintf("%d:%d", nSenders, npings))
 	final := "1"
 	if !complete {
 		final = "0"
